@@ -11,7 +11,7 @@ pub uninterp spec fn str_of(s: Seq<char>) -> &'static str;
 pub uninterp spec fn debug_val(v: Val) -> Seq<char>;
 
 /// `format!("{name}-{param:?}")`
-pub open spec fn cache_key(name: Seq<char>, arg: Val) -> String { string_of(name + seq!['-'] + debug_val(arg)) }
+pub open spec fn cache_key_of(name: Seq<char>, arg: Val) -> String { string_of(name + seq!['-'] + debug_val(arg)) }
 
 // ---- C10: names ---------------------------------------------------------------------------------------
 pub open spec fn facts_lit() -> Seq<char> { seq!['f', 'a', 'c', 't', 's'] }
@@ -41,13 +41,16 @@ pub open spec fn invoke(f: BoxedFunction, name: Seq<char>, arg: Val, st: St, rem
 }
 
 pub open spec fn call_sem(rs: RuleSet, name: Seq<char>, arg: Val, st: St) -> (Res, St) {
-    let fmap = rs.functions.functions@;
+    call_sem_fm(rs.functions.functions@, name, arg, st)
+}
+
+pub open spec fn call_sem_fm(fmap: Map<&'static str, BoxedFunction>, name: Seq<char>, arg: Val, st: St) -> (Res, St) {
     if !fmap.dom().contains(str_of(name)) {
         (Res::Err(ErrK::UnknownUserFunction(name)), st)
     } else {
         let f = fmap[str_of(name)];
         if f.spec_cacheable() {
-            let key = cache_key(name, arg);
+            let key = cache_key_of(name, arg);
             if st.cache.dom().contains(key) {
                 (Res::Ok(st.cache[key]), st)                       // hit: no invocation
             } else {
@@ -328,3 +331,21 @@ pub proof fn lemma_esize_map_elem(m: Map<String, Expr>, keys: Seq<String>, n: na
 {
     if i < n - 1 { lemma_esize_map_elem(m, keys, (n - 1) as nat, i); }
 }
+
+// ---- C09: the state in which rule `n` of a ruleset is evaluated --------------------------------------------
+pub open spec fn rules_state(rules: Seq<Rule>, n: nat, rs: RuleSet, facts: Value, st0: St) -> St
+    decreases n,
+{
+    if n == 0 || n > rules.len() { st0 } else { sem(rules[n - 1].expr, rs, facts, rules_state(rules, (n - 1) as nat, rs, facts, st0)).1 }
+}
+
+// ---- C15: registry invariant: every function is stored under its own name ----------------------------------
+pub open spec fn fns_wf(fm: Map<&'static str, BoxedFunction>) -> bool {
+    forall|k: &'static str| #[trigger] fm.dom().contains(k) ==> fm[k].spec_name() == k
+}
+
+pub open spec fn reserved_spec(s: Seq<char>) -> bool { exists|j: int| 0 <= j < KEYWORDS@.len() && (#[trigger] KEYWORDS@[j])@ == s }
+
+// ---- C15: builder state ---------------------------------------------------------------------------------------
+pub open spec fn rule_name_taken(rules: Seq<Rule>, name: Seq<char>) -> bool { exists|j: int| 0 <= j < rules.len() && (#[trigger] rules[j]).name@ == name }
+pub open spec fn rules_distinct(rules: Seq<Rule>) -> bool { forall|i: int, j: int| 0 <= i < j < rules.len() ==> (#[trigger] rules[i]).name@ != (#[trigger] rules[j]).name@ }
